@@ -2,8 +2,11 @@
 
    (i)   the Makefile and script annotation scanners (makefile_loader.go, script_loader.go) as
          line state machines, branch by branch, with an explicit [Panic] outcome where Go indexes
-         annotationLineNumbers[len-1] on an empty slice;
-   (ii)  [enrich] = getEnrichedPackage (enrich_package.go) + output.ParseOutput(s);
+         annotationLineNumbers[len-1] on an empty slice (both handleTarget functions still do;
+         both parse loops skip an empty block before calling them);
+   (ii)  [enrich] = getEnrichedPackage (enrich_package.go) + output.ParseOutput(s); a nil
+         element of PackageDTO.Targets / .Aliases (a null list element in BUILD.json / BUILD.yaml)
+         is [None] in [pd_targets] / [pd_aliases] and an error of [enrich];
    (iii) [merge_packages] / [merge_all] = mergePackages and the merge loop of LoadPackages
          (load.go), parameterised by the order in which the per-file fragments arrive, and
          [load_all] = that followed by model.BuildNodeMapFromPackages' duplicate check.
@@ -121,10 +124,12 @@ Record target_dto := mkTD {
   td_timeout : str
 }.
 Record alias_dto := mkAD { ad_name : str; ad_actual : str }.
+(* Targets []*TargetDTO and Aliases []*AliasDTO are slices of pointers: [None] = a nil element,
+   which is what encoding/json and yaml.v3 deliver for a null list element *)
 Record package_dto := mkPD {
   pd_source : str;
-  pd_targets : list target_dto;
-  pd_aliases : list alias_dto;
+  pd_targets : list (option target_dto);
+  pd_aliases : list (option alias_dto);
   pd_default_platforms : option (list str)
 }.
 
@@ -170,12 +175,13 @@ Definition decode_block (yaml : str -> option annot) (ann : list str) : handle_r
            end
   end.
 
-(* makefileParser.handleTarget: note the four declared fields that are never copied *)
+(* makefileParser.handleTarget: every field the annotation schema declares is copied
+   (fingerprint, platforms, environment_variables and timeout exactly as the script loader does) *)
 Definition mk_target (a : annot) (goal : str) : target_dto :=
   mkTD (if null (an_name a) then goal else an_name a)
        (make_prefix ++ goal)
        (an_deps a) (an_inputs a) [] (an_outputs a) [] [] (an_tags a)
-       [] None [] [].
+       (an_fingerprint a) (an_platforms a) (an_env a) (an_timeout a).
 
 Definition mk_handle (yaml : str -> option annot) (ann : list str) (target_line : str)
   : handle_result target_dto :=
@@ -192,7 +198,11 @@ Definition mk_handle (yaml : str -> option annot) (ann : list str) (target_line 
 Inductive scan_state := Outside | InBlock (ann : list str).
 
 (* makefileParser.parse.  [acc] is the reversed list of targets, [found] the targetsFound flag.
-   End of input inside a block: both Go loops end, the block is silently dropped. *)
+   End of input inside a block: both Go loops end, the block is silently dropped.
+   `if len(annotationLines) == 0 { break }` comes before handleTarget, as in the script parser:
+   a marker with no annotation line before the next non-comment line is skipped (that line is
+   consumed, no target is registered, targetsFound stays set), so the Panic branch of
+   decode_block is unreachable (proved in Loader_proofs.v). *)
 Fixpoint mk_scan (yaml : str -> option annot) (lines : list str) (st : scan_state)
          (found : bool) (acc : list target_dto) : scan_result (list target_dto) :=
   match lines with
@@ -206,10 +216,13 @@ Fixpoint mk_scan (yaml : str -> option annot) (lines : list str) (st : scan_stat
       | InBlock ann =>
           if null t then mk_scan yaml rest st found acc
           else if has_prefix [ch_hash] t then mk_scan yaml rest (InBlock (ann ++ [skipn 1 t])) found acc
-          else match mk_handle yaml ann l with
-               | HPanic => Panic
-               | HErr e => ScanErr e
-               | HOk td => mk_scan yaml rest Outside found (td :: acc)
+          else match ann with
+               | [] => mk_scan yaml rest Outside found acc
+               | _ => match mk_handle yaml ann l with
+                      | HPanic => Panic
+                      | HErr e => ScanErr e
+                      | HOk td => mk_scan yaml rest Outside found (td :: acc)
+                      end
                end
       end
   end.
@@ -226,10 +239,13 @@ Definition after_scan {A} (too_long : bool) (r : scan_result A) : scan_result A 
 Definition scan_makefile_file (maxlen : nat) (yaml : str -> option annot) (content : str) :=
   let '(ls, long) := split_lines maxlen content in after_scan long (scan_makefile yaml ls).
 
-(* The boolean guard that excludes exactly the panicking shape: an annotation block with no
-   comment line ('# @grog' directly followed, blank lines apart, by a non-comment line).
-   It follows the scan with the most permissive decoder: a block whose target line has no ':'
-   ends the scan (error) whatever YAML says, so nothing after it can panic. *)
+(* The boolean description of the one shape on which the parse loop takes the skip branch
+   before any error: an annotation block with no comment line ('# @grog' directly followed,
+   blank lines apart, by a non-comment line).  Before that branch existed this was exactly the
+   shape that panicked (handleTarget on an empty block); the check uses it to recognise that
+   class on a tree without the repair, and Loader_proofs.v to show that the repair changed
+   nothing else.  It follows the scan with the most permissive decoder: a block whose target
+   line has no ':' ends the scan (error) whatever YAML says. *)
 Fixpoint mk_guard_go (lines : list str) (st : option bool) : bool :=
   match lines with
   | [] => true
@@ -330,7 +346,9 @@ Inductive load_error :=
 | EOutput       (* failed to parse outputs *)
 | EBinOutput    (* failed to parse bin output *)
 | EBinNotFile   (* bin output ... must be of type file *)
-| ETimeout.     (* failed to parse timeout *)
+| ETimeout      (* failed to parse timeout *)
+| ENullTarget   (* package file ... contains a null target entry *)
+| ENullAlias.   (* package file ... contains a null alias entry *)
 
 Inductive result (A : Type) := Ok (a : A) | Err (e : load_error).
 Arguments Ok {A} a.
@@ -457,22 +475,26 @@ Section Enrich.
         end
     end.
 
-  Fixpoint enrich_targets (src path : str) (defplat : option (list str)) (tds : list target_dto)
+  (* the target loop; `if target == nil` is the first statement of its body *)
+  Fixpoint enrich_targets (src path : str) (defplat : option (list str)) (tds : list (option target_dto))
            (acc : list target) : result (list target) :=
     match tds with
     | [] => Ok (rev acc)
-    | td :: tds' =>
+    | None :: _ => Err ENullTarget
+    | Some td :: tds' =>
         match enrich_target src path defplat (map t_label acc) td with
         | Err e => Err e
         | Ok t => enrich_targets src path defplat tds' (t :: acc)
         end
     end.
 
-  Fixpoint enrich_aliases (src path : str) (tlabels : list label) (ads : list alias_dto)
+  (* the alias loop; `if alias == nil` is the first statement of its body *)
+  Fixpoint enrich_aliases (src path : str) (tlabels : list label) (ads : list (option alias_dto))
            (acc : list alias) : result (list alias) :=
     match ads with
     | [] => Ok (rev acc)
-    | ad :: ads' =>
+    | None :: _ => Err ENullAlias
+    | Some ad :: ads' =>
         match parse_label path (ad_actual ad) with
         | None => Err ELabel
         | Some actual =>
